@@ -139,3 +139,111 @@ TWINS["C05_twin_with_context_class"] = ("C05", [(D, """                memos = p
 class _JaxtypingContext:""")])
 TWINS["C05_twin_pop_explicit_last"] = ("C05", [(S, "_shape_storage.memo_stack.pop()", "_shape_storage.memo_stack.pop(-1)")])
 TWINS["C05_twin_dict_call"] = ("C05", [(S, "memos = ({}, {}, {}, arguments.copy())", "memos = (dict(), dict(), dict(), dict(arguments))")])
+
+# ------------------------------------------------------------------------- C04
+ARR_FAIL = """        else:
+            set_shape_memo(
+                single_memo_bak, variadic_memo_bak, pytree_memo_bak, arg_memo_bak
+            )
+            return check"""
+PT_FAIL = """        else:
+            set_shape_memo(
+                single_memo_bak, variadic_memo_bak, pytree_memo_bak, arg_memo_bak
+            )
+            return False"""
+SEEDS["C04_array_no_restore_on_fail"] = ("C04", [(A, ARR_FAIL, """        else:
+            return check""")], "C04.1")
+SEEDS["C04_pytree_no_restore_on_fail"] = ("C04", [(P, PT_FAIL, """        else:
+            return False""")], "C04.1")
+SEEDS["C04_alias_backup"] = ("C04", [(A, "        single_memo_bak = single_memo.copy()\n        variadic_memo_bak = variadic_memo.copy()\n        pytree_memo_bak = pytree_memo.copy()\n        arg_memo_bak = arg_memo.copy()\n        try:\n            check",
+                                      "        single_memo_bak = single_memo\n        variadic_memo_bak = variadic_memo.copy()\n        pytree_memo_bak = pytree_memo.copy()\n        arg_memo_bak = arg_memo.copy()\n        try:\n            check")], "C04.2")
+SEEDS["C04_swapped_restore_args"] = ("C04", [(A, ARR_FAIL, """        else:
+            set_shape_memo(
+                single_memo_bak, variadic_memo_bak, arg_memo_bak, pytree_memo_bak
+            )
+            return check""")], "C04.3")
+SEEDS["C04_array_exception_only"] = ("C04", [(A, """            check = cls._check_shape(obj, single_memo, variadic_memo, arg_memo)
+        except BaseException:""", """            check = cls._check_shape(obj, single_memo, variadic_memo, arg_memo)
+        except Exception:""")], "C04.1")
+SEEDS["C04_pytree_exception_only"] = ("C04", [(P, """            out = cls._check(obj, pytree_memo)
+        except BaseException:""", """            out = cls._check(obj, pytree_memo)
+        except Exception:""")], "C04.1")
+SEEDS["C04_pytree_annotationerror_passthrough"] = ("C04", [(P, """            out = cls._check(obj, pytree_memo)
+        except BaseException:""", """            out = cls._check(obj, pytree_memo)
+        except AnnotationError:
+            raise
+        except BaseException:""")], "C04.1")
+SEEDS["C04_snapshot_after_call"] = ("C04", [(P, """        pytree_memo_bak = pytree_memo.copy()
+        arg_memo_bak = arg_memo.copy()
+        try:
+            out = cls._check(obj, pytree_memo)""", """        arg_memo_bak = arg_memo.copy()
+        try:
+            out = cls._check(obj, pytree_memo)
+            pytree_memo_bak = pytree_memo.copy()""")], "C04.2")
+SEEDS["C04_set_bottom_of_stack"] = ("C04", [(S, """        _shape_storage.memo_stack[-1] = (
+            single_memo,""", """        _shape_storage.memo_stack[0] = (
+            single_memo,""")], "C04.4")
+SEEDS["C04_set_store_order"] = ("C04", [(S, """            single_memo,
+            variadic_memo,
+            pytree_memo,
+            arg_memo,
+        )""", """            single_memo,
+            pytree_memo,
+            variadic_memo,
+            arg_memo,
+        )""")], "C04.3")
+SEEDS["C04_restore_on_success"] = ("C04", [(A, """        if check == "":
+            return check
+        else:""", """        if check == "":
+            set_shape_memo(
+                single_memo_bak, variadic_memo_bak, pytree_memo_bak, arg_memo_bak
+            )
+            return check
+        else:""")], "C04.1")
+SEEDS["C04_inverted_test"] = ("C04", [(P, """        if out:
+            return True
+        else:""" , """        if not out:
+            return False
+        else:""")], "C04.1")
+SEEDS["C04_check_shape_args_swapped"] = ("C04", [(A, "check = cls._check_shape(obj, single_memo, variadic_memo, arg_memo)", "check = cls._check_shape(obj, variadic_memo, single_memo, arg_memo)")], "C04.3")
+SEEDS["C04_restore_live_memo"] = ("C04", [(P, PT_FAIL, """        else:
+            set_shape_memo(
+                single_memo, variadic_memo_bak, pytree_memo_bak, arg_memo_bak
+            )
+            return False""")], "C04.2")
+
+TWINS["C04_twin_flipped_if"] = ("C04", [(A, """        if check == "":
+            return check
+        else:
+            set_shape_memo(
+                single_memo_bak, variadic_memo_bak, pytree_memo_bak, arg_memo_bak
+            )
+            return check""", """        if check != "":
+            set_shape_memo(
+                single_memo_bak, variadic_memo_bak, pytree_memo_bak, arg_memo_bak
+            )
+            return check
+        return \"\"""")])
+TWINS["C04_twin_dict_copy"] = ("C04", [(P, "        single_memo_bak = single_memo.copy()", "        single_memo_bak = dict(single_memo)")])
+TWINS["C04_twin_try_finally_flag"] = ("C04", [(P, """        try:
+            out = cls._check(obj, pytree_memo)
+        except BaseException:
+            set_shape_memo(
+                single_memo_bak, variadic_memo_bak, pytree_memo_bak, arg_memo_bak
+            )
+            raise
+        if out:
+            return True
+        else:
+            set_shape_memo(
+                single_memo_bak, variadic_memo_bak, pytree_memo_bak, arg_memo_bak
+            )
+            return False""", """        out = False
+        try:
+            out = cls._check(obj, pytree_memo)
+        finally:
+            if not out:
+                set_shape_memo(
+                    single_memo_bak, variadic_memo_bak, pytree_memo_bak, arg_memo_bak
+                )
+        return out""")])
